@@ -396,3 +396,137 @@ func (ff *FuncFacts) Alternatives(l Lit) []Lit {
 	}
 	return out
 }
+
+// ExpandDNF rewrites a conjunction of branch literals into a disjunction of
+// conjunctions in which every short-circuit / flag boolean phi has been replaced
+// by one of the ways it can take the required value (the conditions of the
+// incoming edge, plus the operand when it is not a constant). Bounded: gives up
+// expanding (keeps the phi literal) beyond 64 disjuncts or depth 6.
+func (ff *FuncFacts) ExpandDNF(conj []Lit) [][]Lit {
+	var out [][]Lit
+	var rec func(c []Lit, depth int)
+	rec = func(c []Lit, depth int) {
+		if depth > 6 || len(out) > 64 {
+			out = append(out, c)
+			return
+		}
+		for i, l := range c {
+			v, pol := l.Cond, l.Pol
+			for {
+				if u, ok := v.(*ssa.UnOp); ok && u.Op.String() == "!" {
+					v, pol = u.X, !pol
+					continue
+				}
+				break
+			}
+			phi, ok := v.(*ssa.Phi)
+			if !ok {
+				continue
+			}
+			rest := append(append([]Lit{}, c[:i]...), c[i+1:]...)
+			n := 0
+			for k, e := range phi.Edges {
+				cb, isConst := ConstBool(e)
+				if isConst && cb != pol {
+					continue
+				}
+				n++
+				alt := append([]Lit{}, rest...)
+				alt = append(alt, ff.DCSPhiEdge(phi.Block(), k)...)
+				if !isConst {
+					alt = append(alt, Lit{Cond: e, Pol: pol})
+				}
+				rec(alt, depth+1)
+			}
+			if n == 0 {
+				// infeasible
+			}
+			return
+		}
+		out = append(out, c)
+	}
+	rec(conj, 0)
+	return out
+}
+
+// ExpandDNFRegion is ExpandDNF with the alternatives of a boolean phi taken
+// from the reaching condition (inside the acyclic region entered at entry) of
+// each incoming edge, not just from its dominating conditions - so a flag set
+// in a block that several case edges share is expanded into those cases.
+// Contradictory combinations are dropped.
+func (ff *FuncFacts) ExpandDNFRegion(entry *ssa.BasicBlock, conj []Lit) [][]Lit {
+	var out [][]Lit
+	consistent := func(c []Lit) bool {
+		seen := map[*ssa.If]bool{}
+		pol := map[*ssa.If]bool{}
+		for _, l := range c {
+			if l.If == nil {
+				continue
+			}
+			if seen[l.If] && pol[l.If] != l.Pol {
+				return false
+			}
+			seen[l.If], pol[l.If] = true, l.Pol
+		}
+		return true
+	}
+	var rec func(c []Lit, depth int)
+	rec = func(c []Lit, depth int) {
+		if !consistent(c) {
+			return
+		}
+		if depth > 6 || len(out) > 128 {
+			out = append(out, c)
+			return
+		}
+		for i, l := range c {
+			v, pol := l.Cond, l.Pol
+			for {
+				if u, ok := v.(*ssa.UnOp); ok && u.Op.String() == "!" {
+					v, pol = u.X, !pol
+					continue
+				}
+				break
+			}
+			phi, ok := v.(*ssa.Phi)
+			if !ok {
+				continue
+			}
+			rest := append(append([]Lit{}, c[:i]...), c[i+1:]...)
+			for k, e := range phi.Edges {
+				cb, isConst := ConstBool(e)
+				if isConst && cb != pol {
+					continue
+				}
+				p := phi.Block().Preds[k]
+				var edgeLits []Lit
+				if ifx := ifOf(p); ifx != nil && len(p.Succs) == 2 && p.Succs[0] != p.Succs[1] {
+					idx := 0
+					if p.Succs[1] == phi.Block() {
+						idx = 1
+					}
+					edgeLits = append(edgeLits, Lit{Cond: ifx.Cond, Pol: idx == 0, If: ifx})
+				}
+				if !isConst {
+					edgeLits = append(edgeLits, Lit{Cond: e, Pol: pol})
+				}
+				rcp, okrc := ReachingCondition(entry, p, 32)
+				if !okrc || len(rcp) == 0 {
+					alt := append(append([]Lit{}, rest...), ff.DCSPhiEdge(phi.Block(), k)...)
+					alt = append(alt, edgeLits...)
+					rec(alt, depth+1)
+					continue
+				}
+				for _, pc := range rcp {
+					alt := append(append([]Lit{}, rest...), []Lit(pc)...)
+					alt = append(alt, edgeLits...)
+					rec(alt, depth+1)
+				}
+			}
+			return
+		}
+		out = append(out, c)
+	}
+	rec(conj, 0)
+	return out
+}
